@@ -3,7 +3,7 @@
     specification: Model/C12_Enum.v (exhaustive gamete enumeration). *)
 From Coq Require Import Reals.
 From PV Require Import Lib.Common Model.C12_Var Model.C12_Enum Proofs.C12_Sums Proofs.C12_Chunks Proofs.C12_Var Proofs.C12_Selfing
-  Proofs.C12_Meiosis Proofs.C12_Exact Proofs.C12_Genic Proofs.C12_Findings.
+  Proofs.C12_Meiosis Proofs.C12_Exact Proofs.C12_Genic Proofs.C12_Findings Proofs.C12_Lift Proofs.C12_Multi Proofs.C12_Top.
 Local Open Scope Q_scope.
 
 (** ** memory chunking *)
@@ -103,6 +103,48 @@ Theorem C12_dihybrid_entry_partial : forall S R k geno geno1 t1 t2 f m, mem_ok (
   dihybrid_entry S geno geno1 t1 t2 f m == four_truth S R k (row geno1 f) (row geno f) (row geno1 m) (row geno m) t1 t2.
 Proof. exact dihybrid_entry_partial. Qed.
 Print Assumptions C12_dihybrid_entry_partial.
+
+(** ** MULTI-LOCUS exactness with selfing: every scheme, every number of loci, every linkage-group layout, every depth k.
+    [layout_ok S ps k]: mem admissible; the linkage groups tile [0,L); the gap in front of every group but the first has p = 1/2;
+    the D tables hold the coded cov_D1s / cov_D2s of the pair fractions rpair ps i j at depth k; pair fractions are >= 0.
+    The right-hand sides are covariances of the two doubled-haploid trait values under the exhaustive enumeration of whole
+    multi-locus gametes: [EL_two] = k selfing generations of the F1 (two independent multi-locus meioses each) and a last meiosis;
+    [EL_three] / [EL_four] = the same after uniting a gamete of the first cross(es). *)
+Theorem C12_pairwise_marginal : forall ps i j, (i <= length ps)%nat -> (j <= length ps)%nat -> forall k h1 h2 (psi : hap -> Q),
+  length h1 = S (length ps) -> length h2 = S (length ps) ->
+  EgenL ps k h1 h2 (fun g => psi (pr g i j)) == Egen (rpair ps i j) k (pr h1 i j, pr h2 i j) psi.
+Proof. exact EgenL_marginal. Qed.
+Print Assumptions C12_pairwise_marginal.
+
+Theorem C12_twoway_entry_multilocus : forall S ps k t1 t2, layout_ok S ps k -> forall geno f m,
+  let L := Datatypes.S (length ps) in
+  twoway_entry S geno t1 t2 f m ==
+  covL L (EL_two ps k (alleles (row geno f) L) (alleles (row geno m) L)) (ucol (s_u S) t1 L) (ucol (s_u S) t2 L).
+Proof. exact twoway_entry_multilocus. Qed.
+Print Assumptions C12_twoway_entry_multilocus.
+
+Theorem C12_threeway_entry_multilocus_partial : forall S ps k t1 t2, layout_ok S ps k -> forall geno r f m, f <> m ->
+  let L := Datatypes.S (length ps) in
+  threeway_entry S geno t1 t2 r f m ==
+  covL L (EL_three ps k (alleles (row geno r) L) (alleles (row geno f) L) (alleles (row geno m) L)) (ucol (s_u S) t1 L) (ucol (s_u S) t2 L).
+Proof. exact threeway_entry_multilocus. Qed.
+Print Assumptions C12_threeway_entry_multilocus_partial.
+
+Theorem C12_fourway_entry_multilocus_partial : forall S ps k t1 t2, layout_ok S ps k -> forall geno f2 m2 f1 m1, f1 <> m1 ->
+  let L := Datatypes.S (length ps) in
+  fourway_entry S geno t1 t2 f2 m2 f1 m1 ==
+  covL L (EL_four ps k (alleles (row geno f2) L) (alleles (row geno m2) L) (alleles (row geno f1) L) (alleles (row geno m1) L))
+       (ucol (s_u S) t1 L) (ucol (s_u S) t2 L).
+Proof. exact fourway_entry_multilocus. Qed.
+Print Assumptions C12_fourway_entry_multilocus_partial.
+
+Theorem C12_dihybrid_entry_multilocus_partial : forall S ps k t1 t2, layout_ok S ps k -> forall geno geno1 f m, f <> m ->
+  let L := Datatypes.S (length ps) in
+  dihybrid_entry S geno geno1 t1 t2 f m ==
+  covL L (EL_four ps k (alleles (row geno1 f) L) (alleles (row geno f) L) (alleles (row geno1 m) L) (alleles (row geno m) L))
+       (ucol (s_u S) t1 L) (ucol (s_u S) t2 L).
+Proof. exact dihybrid_entry_multilocus. Qed.
+Print Assumptions C12_dihybrid_entry_multilocus_partial.
 
 (** the unvisited index patterns are wrong (faithful model, witnesses by computation) *)
 Theorem C12_threeway_repeated_parent_refuted : exists S R k geno r f,
@@ -222,3 +264,5 @@ Example C12_hyps_satisfiable : mem_ok (s_mem ex_S) /\ consecutive (s_chroms ex_S
   (forall c i j, In c (s_chroms ex_S) -> In i (ixs c) -> In j (ixs c) -> s_D1 ex_S i j == cov_D1s (rpair ex_ps i j) (Some 0%nat)) /\
   ~ twoway_low ex_S 0 1 [0; 1; 1; 0]%Z [1; 0; 0; 0]%Z == 0.
 Proof. exact ex_hyps. Qed.
+Example C12_layout_satisfiable : layout_ok ex_S ex_ps 0.
+Proof. exact ex_layout. Qed.
